@@ -101,7 +101,8 @@ Definition plain_class (id : N) : clsdesc :=
      c_mctor := SImplicit; c_cassign := SImplicit; c_massign := SImplicit; c_dtor := SImplicit |}.
 
 (* a destructor declared virtual must be declared: "virtual ~C() = default;" when implicit *)
-Definition cls_wf (d : clsdesc) : bool := true.
+Definition cls_wf (d : clsdesc) : bool :=
+  if c_vdtor d then negb (sm_eqb (c_dtor d) SImplicit) else true.
 (* a union has no virtual functions *)
 Definition union_wf (d : clsdesc) : bool := negb (c_virt d) && negb (c_pure d) && negb (c_vdtor d).
 
